@@ -3,6 +3,7 @@ package main
 import (
 	"go/ast"
 	"go/token"
+	"sort"
 	"strings"
 )
 
@@ -25,6 +26,7 @@ func init() {
 		c11Store(x)
 		c11Load(x)
 		c11Sources(x)
+		c11Main(x)
 		return nil
 	})
 }
@@ -789,4 +791,101 @@ func c11Sources(x *X) {
 		})
 	}
 	x.defStrList("loadURLStatusTests", tests)
+}
+
+// ---- main.makeTLSConfig ----------------------------------------------------------------------------------------
+
+// c11Main describes how a listener gets its tls.Config: the calls into package cert made by main.makeTLSConfig, in
+// order, each argument named by role (a field of the listener parameter, the result of an earlier call, …), and the
+// package-level variables of package main the function touches (state shared between the listeners).
+func c11Main(x *X) {
+	const dir = "."
+	fd := x.funcDecl(dir, "", "makeTLSConfig")
+	if fd == nil {
+		x.defStrList("makeTLSConfigCalls", []string{"?"})
+		x.defStrList("makeTLSConfigPackageVars", []string{"?"})
+		return
+	}
+	pkgVars := map[string]bool{}
+	for _, f := range x.files(dir) {
+		for _, d := range f.Decls {
+			if gd, ok := d.(*ast.GenDecl); ok && gd.Tok == token.VAR {
+				for _, sp := range gd.Specs {
+					for _, n := range sp.(*ast.ValueSpec).Names {
+						pkgVars[n.Name] = true
+					}
+				}
+			}
+		}
+	}
+	params := map[string]bool{}
+	for _, p := range c11ParamNames(fd) {
+		params[p] = true
+	}
+	// locals: name -> callee that produced it ("src" <- cert.NewSource)
+	from := map[string]string{}
+	locals := map[string]bool{}
+	var calls []string
+	var touched []string
+	seen := map[string]bool{}
+	ast.Inspect(fd.Body, func(n ast.Node) bool {
+		switch v := n.(type) {
+		case *ast.AssignStmt:
+			for _, l := range v.Lhs {
+				if name := c11IdentName(l); name != "" && v.Tok == token.DEFINE {
+					locals[name] = true
+				}
+			}
+			if len(v.Rhs) == 1 {
+				if c, ok := v.Rhs[0].(*ast.CallExpr); ok {
+					if se, ok := c.Fun.(*ast.SelectorExpr); ok && c11IdentName(se.X) == "cert" {
+						if name := c11IdentName(v.Lhs[0]); name != "" {
+							from[name] = "cert." + se.Sel.Name
+						}
+					}
+				}
+			}
+		case *ast.CallExpr:
+			se, ok := v.Fun.(*ast.SelectorExpr)
+			if !ok || c11IdentName(se.X) != "cert" {
+				return true
+			}
+			var args []string
+			for _, a := range v.Args {
+				switch e := a.(type) {
+				case *ast.SelectorExpr:
+					if params[c11IdentName(e.X)] {
+						args = append(args, "listener."+e.Sel.Name)
+					} else {
+						args = append(args, "other."+e.Sel.Name)
+					}
+				case *ast.Ident:
+					if f, ok := from[e.Name]; ok {
+						args = append(args, "result:"+f)
+					} else if params[e.Name] {
+						args = append(args, "listener")
+					} else {
+						args = append(args, "?")
+					}
+				default:
+					args = append(args, "?")
+				}
+			}
+			calls = append(calls, "cert."+se.Sel.Name+"("+strings.Join(args, ", ")+")")
+		case *ast.Ident:
+			if pkgVars[v.Name] && !locals[v.Name] && !params[v.Name] && v.Obj == nil && !seen[v.Name] {
+				seen[v.Name] = true
+				touched = append(touched, v.Name)
+			} else if pkgVars[v.Name] && v.Obj != nil {
+				if _, isVar := v.Obj.Decl.(*ast.ValueSpec); isVar && !seen[v.Name] {
+					seen[v.Name] = true
+					touched = append(touched, v.Name)
+				}
+			}
+		}
+		return true
+	})
+	sort.Strings(touched)
+	x.defStrList("makeTLSConfigCalls", calls)
+	x.defStrList("makeTLSConfigPackageVars", touched)
 }
